@@ -8,6 +8,7 @@ import (
 	"fmt"
 	"reflect"
 	"strconv"
+	"strings"
 	"sync"
 	"sync/atomic"
 	"testing"
@@ -286,6 +287,31 @@ func verifWash(v *verifServer) {
 	v.noise = 0
 }
 
+// verifKey names the keys of the period cases. Ids from 100 on are LONG keys (a url plus a session
+// token): 100/101 share their first 128 bytes, 102/103 their first 200 bytes, 104/105 their first
+// 128 bytes and have the same length; each pair differs only after the shared part.
+func verifKey(k int) string {
+	if k < 100 {
+		return "k" + strconv.Itoa(k)
+	}
+	shared := 128
+	if k == 102 || k == 103 {
+		shared = 200
+	}
+	head := "https://api.example.org/v1/accounts/"
+	for len(head) < shared {
+		head += "0123456789abcdef"
+	}
+	head = head[:shared]
+	switch k {
+	case 104:
+		return head + "?session=aaaaaaaaaaaaaaaa"
+	case 105:
+		return head + "?session=aaaaaaaaaaaaaaab"
+	}
+	return head + "?session=" + strconv.Itoa(k) + strings.Repeat("z", k-99)
+}
+
 func verifPeriod(v *verifServer, c verifCase) any {
 	prefix := fmt.Sprintf("p%d:", v.caseSeq)
 	lims := make([]*PeriodLimit, len(c.Lims))
@@ -332,7 +358,7 @@ func verifPeriod(v *verifServer, c verifCase) any {
 			out = append(out, map[string]any{})
 		case "tickw":
 			// step the server to the end of the window the key's last opening take asked for, plus op.Ms
-			ms := lastW[pfx[op.Lim]+"k"+strconv.Itoa(op.Key)]*1000 + op.Ms
+			ms := lastW[pfx[op.Lim]+verifKey(op.Key)]*1000 + op.Ms
 			if ms < 0 {
 				ms = 0
 			}
@@ -346,7 +372,7 @@ func verifPeriod(v *verifServer, c verifCase) any {
 			out = append(out, map[string]any{})
 		case "take":
 			pl := lims[op.Lim]
-			key := "k" + strconv.Itoa(op.Key)
+			key := verifKey(op.Key)
 			if op.Down {
 				v.set(false, false, false)
 			}
@@ -391,7 +417,7 @@ func verifPeriod(v *verifServer, c verifCase) any {
 				"exp": []int64{u0, int64(off), 0, u1, 0}})
 		case "conc":
 			pl := lims[op.Lim]
-			key := "k" + strconv.Itoa(op.Key)
+			key := verifKey(op.Key)
 			now := time.Now()
 			_, off := now.Zone()
 			u0 := now.Unix()
